@@ -196,6 +196,7 @@ def run_h(case, ctx):
             returned_kinds.add(name)
             if name in hops.REMOVING and unordered(before) != unordered(after):
                 dependent = True
+                ctx.event("changed-by:" + name)
         else:
             ctx.event("op-raised")
         nfail = len(ctx.fails)
